@@ -43,7 +43,9 @@ class Sim:
         self.sources: List = []
         self.timer_sources: List = []   # objects with next_timer() -> Optional[float]
         self.fair = False               # fair phase: oldest-enabled-first instead of tape choice
-        self._rr = 0
+        self.fault_prefixes = ("break", "cancel:", "stop", "fault:")
+        self.fault_den = 8
+        self._since = {}                # fair phase: label -> step at which it became enabled
         self.extra = (extra_num, extra_den)
         self.on_step: Optional[Callable[[str], None]] = None
         self.on_quiescent: Optional[Callable[[], None]] = None   # invariant hook: duet side is idle
@@ -90,14 +92,34 @@ class Sim:
             raise Deadlock()
         self._count()
         if self.fair:
-            # round-robin over enabled events; the clock only moves when nothing else can
+            # oldest-enabled-first: every continuously enabled event is taken after at most
+            # (number of enabled events) steps; the clock only moves when nothing else can
             if evs:
-                k = self._rr % len(evs)
-                self._rr += 1
+                live = {lab for lab, _ in evs}
+                for lab in list(self._since):
+                    if lab not in live:
+                        del self._since[lab]
+                for lab in live:
+                    if lab not in self._since:
+                        self._since[lab] = self.steps
+                k = min(range(len(evs)), key=lambda i: (self._since[evs[i][0]], i))
+                del self._since[evs[k][0]]
             else:
                 k = len(evs)
         else:
-            k = self.tape.draw(n, "event")
+            # Faults (labels with a fault prefix) are always enabled while budget remains; drawn
+            # uniformly with everything else they would nearly always fire before the workload has
+            # created any in-flight state.  So: first decide *whether* a fault happens now
+            # (1 in fault_den), then which event of that class.
+            fidx = [i for i, (lab, _) in enumerate(evs) if lab.startswith(self.fault_prefixes)]
+            if fidx and len(fidx) < n:
+                if self.tape.chance(1, self.fault_den, "fault?"):
+                    k = fidx[self.tape.draw(len(fidx), "which-fault")]
+                else:
+                    rest = [i for i in range(n) if i not in set(fidx)]
+                    k = rest[self.tape.draw(len(rest), "event")]
+            else:
+                k = self.tape.draw(n, "event")
         if k < len(evs):
             label, fn = evs[k]
             self.ctx.decide(label)
